@@ -77,6 +77,7 @@ type tgtInc struct {
 	broken   bool
 	highs    []int64
 	lastID   int64
+	lastOrig map[int]int64 // per source: last original id delivered on this stream (source order check)
 }
 
 type rTask struct {
@@ -111,6 +112,7 @@ type rWorld struct {
 	faults   bool
 	emittedOnce map[string]int // "s:id" -> times emitted
 	keepalives int
+	noSleep  bool
 	viol     []map[string]any
 }
 
@@ -156,6 +158,10 @@ func newRWorld(t *testing.T, ns, nt int) *rWorld {
 
 func (w *rWorld) settle() {
 	synctest.Wait()
+	if w.noSleep {
+		w.noSleep = false
+		return // no virtual time passes: back-off sleepers stay asleep until the next op
+	}
 	// snapshot, then let every back-off / ticker run; empty messages that appear while sleeping are keep-alives
 	pre := make([]int, w.nt)
 	for t, ti := range w.tgt {
@@ -348,6 +354,13 @@ func (w *rWorld) monitorTask(t int, ti *tgtInc, tk *replicationpb.ReplicationTas
 		return
 	}
 	if !w.faults {
+		if ti.lastOrig == nil {
+			ti.lastOrig = map[int]int64{}
+		}
+		if last, ok := ti.lastOrig[src]; ok && orig <= last {
+			w.violation("C02", fmt.Sprintf("target %d: task %d of source %d delivered after task %d (source order violated)", t, orig, src, last), nil)
+		}
+		ti.lastOrig[src] = orig
 		key := fmt.Sprintf("%d:%d", src, orig)
 		w.emittedOnce[key]++
 		if w.emittedOnce[key] > 1 {
@@ -466,6 +479,7 @@ func (w *rWorld) exec(op string) (string, string) {
 		w.openSrc(int(n(1)))
 	case "opentgt":
 		w.openTgt(int(n(1)))
+		w.noSleep = len(f) > 2 && f[2] == "nosleep"
 	case "batch":
 		var tasks [][2]int64
 		for _, x := range f[3:] {
